@@ -23,7 +23,7 @@ REGISTRATION = {
             "legacy push: single-part uploads only (files < 100 MB), no 401/token and no 307 redirect path.",
 }
 
-MODULES = ["OllamaVerif.Properties.C09"]
+MODULES = ["OllamaVerif.Properties.C09", "OllamaVerif.Tie.C09"]
 THEOREMS = [
     "OllamaVerif.C09.put_ok_verified",
     "OllamaVerif.C09.put_whole_layer_verified",
@@ -46,13 +46,43 @@ THEOREMS = [
     "OllamaVerif.C09.pull_preserves_verified_blobs",
     "OllamaVerif.C09.history_linked_layers_verified",
     "OllamaVerif.C09.F10d_staged_variant",
+    "OllamaVerif.Tie.C09.retry_table_complete",
+    "OllamaVerif.Tie.C09.canRetry_matches_handlePull",
+    "OllamaVerif.Tie.C09.outcomeOf_covers",
     "OllamaVerif.C09.pull_success_verified_partial",
 ]
 OVERLAY = {"server/internal/client/ollama/zz_verif_c09_test.go": "server_internal_client_ollama/zz_verif_c09_test.go"}
 OVERLAY_LEGACY = {"server/zz_verif_c09_push_test.go": "server/zz_verif_c09_push_test.go"}
 
 
+OVERLAY_RETRY = {"server/internal/registry/zz_verif_c09_retry_test.go": "server_internal_registry/zz_verif_c09_retry_test.go"}
+
+
+def regenerate(ctx):
+    """Tie 1: run the real Local.handlePull once per error class of the model (first attempt fails with
+    that class, later ones succeed) and emit (class, attempts made) as a Lean table."""
+    rc, out, outdir = ctx.go_test("./server/internal/registry/", OVERLAY_RETRY, "^TestVerifC09RetryTable$")
+    rows = []
+    path = outdir + "/table.txt"
+    import os
+    if rc == 0 and os.path.exists(path):
+        for line in open(path):
+            k, n = line.split()
+            rows.append(f'("{k}", {int(n)})')
+    else:
+        ctx.notes.append("retry table driver failed: " + out[-400:])
+    body = ("-- REGENERATED on every run by vlib/checks/c09.py from /repo's working tree. Do not edit.\n"
+            "namespace OllamaVerif.Generated.C09\n"
+            "/-- (error class of the first Pull attempt, number of attempts Local.handlePull made) -/\n"
+            "def retryTable : List (String × Nat) := [" + ", ".join(rows) + "]\n"
+            "end OllamaVerif.Generated.C09\n")
+    core.write_generated("OllamaVerif/Generated/C09_RetryTable.lean", body)
+    ctx.coverage["retry_table"] = ", ".join(rows)
+
+
 def run(ctx):
+    if not ctx.replay:
+        regenerate(ctx)
     ctx.lean_check(MODULES, THEOREMS)
     env = {"VERIF_N": ctx.scale(4000, 60000), "VERIF_NPUSH": ctx.scale(1000, 10000)}
     replay_kind = None
